@@ -142,7 +142,10 @@ namespace AIToolbox {
 
         std::optional<Vector> solution;
 
-        if ( result == 0 || result == 1 )
+        // ACCURACYERROR: lp_solve found the optimal basis, but its final accuracy
+        // check is above break_numeric_accuracy (5e-7, see getPrecision()); the
+        // solution is still the one of that basis.
+        if ( result == OPTIMAL || result == SUBOPTIMAL || result == ACCURACYERROR )
             solution = Eigen::Map<Vector>(vp, variables);
 
         return solution;
